@@ -197,6 +197,46 @@ def live_parameters(ctx, rule="C13.undo"):
            "(a cached table goes stale when the parameter arrays are replaced)", role="parameters-live", line=f.node.lineno)
 
 
+def crop_leading(ctx, rule="C13.crop"):
+    ctx.explain(f"{rule}: cropping removes the vacuum pulses that arrive BEFORE the first computational one: wherever the engine uses "
+                "TDMProgram.get_crop_value() (on the samples and on the modes of the returned state - sibling sites that must agree) the "
+                "value is the LOWER bound of a slice or the START of a two-argument range; as an upper bound, a subtrahend or the "
+                "single argument of range() it keeps the wrong end (the leading vacuum instead of the last computed pulses).")
+    n = 0
+    for f in ctx.tree.module("engine.py").functions.values():
+        calls = [c for c in walk_no_nested(f.node) if isinstance(c, ast.Call) and isinstance(c.func, ast.Attribute)
+                 and c.func.attr == "get_crop_value"]
+        if not calls:
+            continue
+        rd = rd_of(f.node)
+        uses = list(calls)
+        # locals computed from the crop value (crop = prog.get_crop_value() if ... else 0)
+        for x in walk_no_nested(f.node):
+            if isinstance(x, ast.Name) and isinstance(x.ctx, ast.Load):
+                ids = rd.cfg.node_of_expr(x)
+                if not ids:
+                    continue
+                for d in rd.reaching(x.id, ids[0]):
+                    if d.kind == "assign" and isinstance(d.value, ast.AST) and any(c in calls for c in ast.walk(d.value)):
+                        uses.append(x)
+                        break
+        k = 0
+        for u in uses:
+            par = getattr(u, "parent", None)
+            while isinstance(par, ast.IfExp) and u is not par.test:
+                u, par = par, getattr(par, "parent", None)
+            if isinstance(par, (ast.Assign, ast.AnnAssign)) and par.value is u:
+                continue                     # the definition of a local: its uses are examined
+            k += 1
+            n += 1
+            ok = (isinstance(par, ast.Slice) and par.lower is u) or \
+                (isinstance(par, ast.Call) and dotted(par.func) == "range" and len(par.args) >= 2 and par.args[0] is u)
+            ctx.ob(rule, f.site, ok, "" if ok else f"`{ast.unparse(par)[:60] if par is not None else ast.unparse(u)}`: the crop value is not the "
+                   "lower bound of a slice / start of a range - the wrong end of the time bins is kept", role=f"crop-use:{k}", line=u.lineno)
+    ctx.require(n >= 2, f"only {n} uses of get_crop_value() found in engine.py")
+    ctx.floor(rule, 2)
+
+
 def rules(ctx):
     options(ctx)
     op_clone(ctx)
@@ -205,5 +245,6 @@ def rules(ctx):
     neg_slice(ctx)
     lock(ctx)
     order(ctx)
+    crop_leading(ctx)
     from . import common_alias as _CA
     _CA.shallow_copy_mutation(ctx, "C13.shallow-copy", ("tdm/utils.py", "tdm/program.py"))
